@@ -210,6 +210,9 @@ fn gen_flood(t: &Tape, plan: &mut T2Plan, known: &[u32], next_id: &mut u32) {
         1 => {
             plan.flood = Some("continuation");
             plan.label = "flood:continuation".into();
+            // the limits E configured hold from the start, whether or not the peer ever
+            // acknowledges the SETTINGS frame that announces them
+            plan.peer_withholds_settings_ack = t.chance(Lane::Peer, 1, 2);
             let sid = *next_id;
             *next_id += 2;
             ops.push(PeerOp::Frames(vec![RawFrame::new(HEADERS, 0, sid, vec![0x82, 0x87, 0x84])]));
